@@ -611,8 +611,15 @@ func pairs23(r *hk.Run, rng *hk.Rand, count int, st stack) {
 			if ex.Warm && k == 0 {
 				method, final = "GET", false
 			}
+			isAfter := ex.After && k == len(resps)-1 && len(wOn) == len(resps)
+			if isAfter {
+				method, final = "GET", false
+			} else if ex.After && len(wOn) == len(resps) && k == len(resps)-2 {
+				final = true
+			}
 			p := h23PartsOf(w, resps[k], method, on.Res.Body, final, on.Res.Err)
 			p.Warm = ex.Warm && k == 0
+			p.After = isAfter
 			xs = append(xs, p)
 			if w.Aborted {
 				r.Count(fmt.Sprintf("%s.upload-abandoned(sent<body=%v)", st.name, len(p.ReqBody) < ex.BodyLen))
@@ -659,7 +666,7 @@ func pairs23(r *hk.Run, rng *hk.Rand, count int, st stack) {
 			failOnce(r, hk.Failure{Sig: "faithful:" + which + ":" + sigBase, What: "content of a dump writer is not exactly the selected parts routed to it", Input: in, Got: g, Want: w})
 		}
 		nt := cfg.anyOn() && (ex.BodyLen > 0 || ex.Resps[len(ex.Resps)-1].BodyLen > 0 || len(ex.Resps) > 1 || strings.Contains(ex.Shape, "longhdr"))
-		emitExch(r, cfg, coqX, ex.Warm, on.Sink, pl, map[string]interface{}{"kind": st.name, "exchange": ex, "dump": cfg}, st.name+"|"+keyOf(in), nt)
+		emitExch(r, cfg, coqX, xs, on.Sink, pl, map[string]interface{}{"kind": st.name, "exchange": ex, "dump": cfg}, st.name+"|"+keyOf(in), nt)
 	}
 }
 
